@@ -73,6 +73,11 @@ def _stable_repr(value: Any) -> str:
     module = getattr(value, '__module__', None)
     name = getattr(value, '__qualname__', getattr(value, '__name__', None))
     if isinstance(module, str) and isinstance(name, str):
+        if '<locals>' in name:
+            # Made by a function: the name does not identify it (two
+            # classes returned by one factory have the same), only the
+            # object itself does - within this process.
+            return "{}.{}@{:x}".format(module, name, id(value))
         return "{}.{}".format(module, name)
     return repr(value)
 
